@@ -11,10 +11,11 @@ import Driver.HFunc
 import Driver.HSet
 import Driver.HRefine
 import Driver.HGocty
+import Driver.HStd
 import Driver.HStdlib
 open CtyModel
 
-def handlers : List Handler := [handleTy, handleVal, handleNum, handleOps, handleFunc, handleSet, handleRefine, handleGocty, handleStdlib]
+def handlers : List Handler := [handleTy, handleVal, handleNum, handleOps, handleFunc, handleSet, handleRefine, handleGocty, handleStd, handleStdlib]
 
 def handle (op : String) (args : List Sexp) : String :=
   match handlers.findSome? (fun h => h op args) with
